@@ -74,6 +74,48 @@ T.update({
           "TLC trace validation with fault injection"),
 })
 
+T.update({
+  "C06": ("model_checking", "4 C06",
+          "Fabric.tla (registry, owed/delivered publications) is model-checked by FabricMC.tla over all short call sequences with overlapping publishers and "
+          "lagging delivery threads; executions of the real ActiveFabric (distinct-but-equal client queues, repeated subscriptions, start/stop/clear) "
+          "under random, PCT and lagging schedules are validated event by event by TLC (FabricTrace.tla).",
+          "TLC model checking of Fabric.tla + TLC trace validation of real executions under controlled schedules"),
+  "C08": ("model_checking", "4 C08",
+          "Fabric.tla demands, at every get of a delivery thread, the waiting event of least priority number and, among equals, publish order "
+          "(happens-before of the publish calls); validated on real executions where delivery threads lag behind bursts of publications.",
+          "TLC trace validation against the stable-priority-queue action of Fabric.tla"),
+  "C13": ("model_checking", "4 C13",
+          "FabricMC.tla checks OneThreadPerKind for all start/stop/clear sequences; on real executions TLC checks the number of live delivery "
+          "threads after every event, is_alive() answers, stop() really ending both threads, and delivery after restart.",
+          "TLC model checking of Fabric.tla + TLC trace validation (thread counts observed by the scheduler)"),
+  "C07": ("model_checking", "4 C07",
+          "Real active objects in generated configurations (decorated or not, instrumented or not, subscribe before/after start, from a handler or "
+          "another thread, publish before/after start, other subscribers present) run under controlled schedules; PubSubTrace.tla decides for every "
+          "publication made after the system settled whether it reached every subscriber's chart exactly once per kind.",
+          "TLC trace validation of real multi-object executions against PubSubTrace.tla"),
+  "C09": ("model_checking", "4 C09",
+          "Same executions as C07; at every delivery into an active object's queue TLC checks the position of the delivered event in the queue "
+          "content observed right after the operation: front for lifo subscriptions, back for fifo.",
+          "TLC trace validation (queue position clause of PubSubTrace.tla)"),
+  "C10": ("model_checking", "4 C10",
+          "TimerTrace.tla prescribes, in virtual integer time, the instant and queue end of every post of a timed source and the number of posts due "
+          "by the horizon; real post_fifo/post_lifo(period, times, deferred) sources run under the scheduler's virtual clock and every post is checked.",
+          "TLC trace validation in virtual time against TimerTrace.tla"),
+  "C11": ("model_checking", "4 C11",
+          "Timers.tla model-checks the timer/canceller protocol (no post after the cancel returned; no deadlock; termination); real cancel_event / "
+          "cancel_events calls with ids and names rebuilt from text, racing the timer threads, are validated by TimerTrace.tla (no post after the "
+          "cancel returned, the other sources post exactly what is due).",
+          "TLC model checking of Timers.tla + TLC trace validation of real executions"),
+  "C12": ("model_checking", "4 C12",
+          "stop() from another thread and from a handler, racing timer threads and posters: after it returns TLC checks on the recorded execution "
+          "that the object's thread ended, nothing more is dispatched, none of its sources posts, and the other objects and the fabric keep running.",
+          "TLC model checking of Timers.tla + TLC trace validation (TimerTrace.tla)"),
+  "C31": ("model_checking", "4 C31",
+          "With a small capacity of tracked sources, TimerTrace.tla prescribes which timed posts must be rejected and that a rejected source never "
+          "posts (deferred or not) while tracked ones keep posting; validated on real executions under controlled schedules.",
+          "TLC trace validation against TimerTrace.tla"),
+})
+
 NOT_YET ="no check built yet in this round (work in progress; see DESIGN.md 4 for the planned model)"
 
 
@@ -115,7 +157,7 @@ def main():
   print("MANIFEST: %d checks, %d not_applicable" % (len(checks), len(na)))
 
 
-NOTES = {p: B_NOTE for p in ("C04", "C05", "C16")}
+NOTES = {p: B_NOTE for p in ("C04", "C05", "C16", "C06", "C07", "C08", "C09", "C10", "C11", "C12", "C13", "C31")}
 NA = {}
 
 if __name__ == "__main__":
